@@ -191,7 +191,9 @@ func (x *Exec) loopHeader(st *State, fr *Frame, b *ssa.BasicBlock, prev *ssa.Bas
 		x.paths = savePaths
 		before := len(written)
 		for _, o := range outs {
-			if o.st != nil && o.st.written != nil {
+			// only states that flow back to the loop head matter: what an exit path writes
+			// after leaving the loop is not part of the loop's frame
+			if o.kind == oCut && o.st != nil && o.st.written != nil {
 				for c := range o.st.written {
 					if _, existed := st.store[c]; existed {
 						written[c] = true
@@ -208,6 +210,73 @@ func (x *Exec) loopHeader(st *State, fr *Frame, b *ssa.BasicBlock, prev *ssa.Bas
 	}
 	fr.loops[b] = true
 	x.havocLoop(st, fr, b, nphi, written)
+	if fr.ct != nil && len(fr.ct.forget[l.ordinal]) > 0 {
+		// path-condition conjuncts about the forgotten values are dropped with them
+		// (dropping hypotheses is always sound); invariants carry what the loop needs
+		gone := map[int]bool{}
+		var collect func(v Value)
+		collect = func(v Value) {
+			switch t := v.(type) {
+			case *Term:
+				if len(t.args) > 0 {
+					gone[t.id] = true
+				}
+			case *Tuple:
+				for _, e := range t.el {
+					collect(e)
+				}
+			}
+		}
+		for _, name := range fr.ct.forget[l.ordinal] {
+			if ee, ok := fr.env[name]; ok && !ee.addr {
+				collect(ee.v)
+			}
+		}
+		memo := map[int]bool{}
+		var mentions func(t *Term) bool
+		mentions = func(t *Term) bool {
+			if gone[t.id] {
+				return true
+			}
+			if r, ok := memo[t.id]; ok {
+				return r
+			}
+			r := false
+			for _, a := range t.args {
+				if mentions(a) {
+					r = true
+					break
+				}
+			}
+			memo[t.id] = r
+			return r
+		}
+		var keep []*Term
+		for _, t := range st.pc {
+			if !mentions(t) {
+				keep = append(keep, t)
+			}
+		}
+		st.pc = keep
+	}
+	if fr.ct != nil {
+		for _, name := range fr.ct.forget[l.ordinal] {
+			ee, ok := fr.env[name]
+			if !ok || ee.addr {
+				fail("forget: no plain Go variable %s at loop %d of %s", name, l.ordinal, fr.fn.Name())
+			}
+			nv := x.havocLike(st, ee.v, nil, fr.fn.Name()+"$"+name)
+			if tp, isT := ee.v.(*Tuple); isT {
+				nv = x.havocLike(st, ee.v, tp.typ, fr.fn.Name()+"$"+name)
+			}
+			for k, rv := range fr.regs {
+				if rv == ee.v {
+					fr.regs[k] = nv
+				}
+			}
+			fr.env[name] = envEntry{v: nv}
+		}
+	}
 	st.logMark = len(st.log)
 	evalInvs(st, fr, "assume", true)
 	if nphi == 0 {
